@@ -213,6 +213,9 @@ def main() -> int:
                 # the value sweep is also run on the library's own default template (a populated core.xml)
                 if name == "values" and h[0]["kind"] == "empty" and not (h[1]["op"] == "LoadLexical" and h[1]["p"] != "created"):
                     jobs.append(("%s:%d:tpl" % (name, i), [{"op": "init", "kind": "template"}] + h[1:]))
+                # ... and on a core.xml as another producer writes it (mixed-content keywords, xml:lang, another child order)
+                if name == "values" and h[0]["kind"] == "empty":
+                    jobs.append(("%s:%d:frn" % (name, i), [{"op": "init", "kind": "foreign"}] + h[1:]))
             per_cfg[name] = {"alphabet": alpha, "assignments": na, "reopens": nr, "histories": r.distinct, "leaf_histories": len(leaves),
                              "scenarios": len(jobs) - n0, "tlc_generated": r.generated, "tlc_wall_s": round(r.wall, 1), "lexical_forms": ntab}
         for op in OPS:
@@ -248,7 +251,7 @@ def main() -> int:
     byid = {j[0]: j for j in jobs}
     trid = {t["id"]: t for t in traces}
     observed, nbadsteps = {}, 0
-    korder = {"empty": 0, "absent": 1, "template": 2}
+    korder = {"empty": 0, "absent": 1, "template": 2, "foreign": 3}
 
     def wkey(v):          # deterministic witnesses: shortest history, plainest package, enumeration order
         h, parts = byid[v["id"]][1], v["id"].split(":")
